@@ -246,7 +246,7 @@ def gen_treigen_zero_cases(ctx, count, nmax):
     r = ctx.rng('treigen_zero')
     out = []
     for _ in range(count):
-        n = r.randrange(1, nmax + 1)
+        n = r.randrange(1, min(nmax, 10) + 1)
         a = onp.zeros((n, n)) * (-1.0 if r.random() < 0.2 else 1.0)
         u = r.random()
         if u < 0.2:
@@ -859,8 +859,8 @@ def correspondence(ctx, model_ok):
     cg_cases = gen_exact_switch_cases() + gen_cg_cases(ctx, 'cg', ctx.n(140, 600), nmax) + gen_gould_cases(ctx, ctx.n(40, 200))
     ss_cases = [dict(c, pc=False) for c in gen_cg_cases(ctx, 'sscg', ctx.n(50, 200), nmax)]
     dl_cases = gen_dogleg_cases(ctx, ctx.n(80, 300), nmax)
-    te_cases = (gen_treigen_cases(ctx, ctx.n(100, 300), ctx.n(8, 40)) + gen_treigen_zero_cases(ctx, ctx.n(12, 40), nmax)
-                + gen_treigen_stall_cases(ctx, ctx.n(40, 150), nmax))
+    te_cases = (gen_treigen_cases(ctx, ctx.n(100, 300), ctx.n(8, 40)) + gen_treigen_zero_cases(ctx, ctx.n(12, 30), nmax)
+                + gen_treigen_stall_cases(ctx, ctx.n(40, 100), nmax))
     cap, src_bad, _ = treigen_source_facts(treigen)
     for b in src_bad:
         ctx.fail('correspondence', 'treigen.solve no longer has the structure model/M_C06_Treigen.v was written for: ' + b, case=dict(kind='structure'))
@@ -936,10 +936,10 @@ def correspondence(ctx, model_ok):
         te_run(c)
     # the exit 'range exhausted': the same source recompiled with a cap of 0..3 passes, on inputs whose unmodified run needed more passes
     rc = ctx.rng('treigen_cap')
-    want = ctx.n(30, 100)
+    want = ctx.n(30, 60)
     for i in range(n_plain):
         o = te_out[i]
-        if (want > 0 and o['branch'] == 'secular' and o.get('updates') and not te_cases[i].get('orth')
+        if (want > 0 and o['branch'] == 'secular' and o.get('updates') and not te_cases[i].get('orth') and te_cases[i]['n'] <= 10
                 and (i % 3 == 0 or te_cases[i]['spectrum'].startswith('stall'))):
             k = rc.randrange(0, min(4, o['updates'] + 1))
             te_cases.append(dict(te_cases[i], cap=k))
